@@ -240,7 +240,9 @@ fn lowrank_exact(report: &mut Report, seed: u64, idx: u64) {
             if std::env::var("VERIF_TIMING").is_ok() {
                 eprintln!("lowrank_exact d {d} n {n} cond {cond:e} offset {offset:e} cloud {cloud_cond:e} worst {worst:e}");
             }
-            if !cloud_cond.is_finite() || cloud_cond > 1e8 {
+            // (the two condition numbers multiply: a window that barely spans the space of a badly conditioned Gaussian
+            // leaves no digits for an exactness claim)
+            if !cloud_cond.is_finite() || cloud_cond > 1e8 || cloud_cond * cond.max(1.0) > 1e8 {
                 report.inconclusive("window too ill-conditioned for an exactness check");
                 return;
             }
